@@ -171,10 +171,10 @@ for _n, _N, _tier in (("c06_float_special_4", 4, "quick"), ("c06_float_special_5
 READ_ENV = ["stub std::io::Read: every call returns a symbolic count 1..=min(buf.len(), remaining) (all partitions incl. partial fills), Ok(0) only at end of data; never ErrorKind::Interrupted",
             STD_STUBS, FMT_STUB]
 STEP = "one inductive step: a single next() from an arbitrary iterator state (reader position, running byte total, empty error cell); covers streams of any length by induction"
-H("c09_next_step_chunking", "buffered_input", ["C09", "C01"], expect_s=200, timeout=1500, mem_gb=16, functions=["buffered_input::ChunkedChars::next", "std::io::Read::read (stub)"],
+H("c09_next_step_chunking", "buffered_input", ["C09", "C01"], expect_s=60, timeout=1500, mem_gb=16, functions=["buffered_input::ChunkedChars::next", "std::io::Read::read (stub)"],
   claim="for every chunking of the reader's bytes (incl. splits inside a multi-byte character, partial fills) the character delivered equals the one-shot decoding and exactly its bytes are consumed; invalid UTF-8 or an end of data inside a character ends the input with the error cell set; a clean end ends it without",
   bound="next 4 bytes of the stream fully symbolic (valid or not), 0..4 of them available, all read() partitions; " + STEP, assumes=READ_ENV)
-H("c10_next_step_fault", "buffered_input", ["C10", "C01"], expect_s=300, timeout=1500, mem_gb=16, functions=["buffered_input::ChunkedChars::next"],
+H("c10_next_step_fault", "buffered_input", ["C10", "C01"], expect_s=100, timeout=1500, mem_gb=16, functions=["buffered_input::ChunkedChars::next"],
   claim="if any read() of this step returns Err (kind in {Other, UnexpectedEof, BrokenPipe, InvalidData, TimedOut, ConnectionReset}) no character is delivered AND the shared error cell is set - a reader error is never taken for end of input",
   bound="as c09_next_step_chunking plus fault at the k-th read call of the step, k in 0..=3, 6 error kinds; " + STEP, assumes=READ_ENV)
 H("c10_next_step_cap", "buffered_input", ["C10"], expect_s=300, timeout=1500, mem_gb=16, functions=["buffered_input::ChunkedChars::next (max_bytes)"],
